@@ -401,7 +401,79 @@ def _keeps_truthy_in_order(m):
     return False
 
 
+def _walk_by_evaluation(repo, mod, m):
+    """collect_functions applied abstractly to a chain of three layers
+    (each with or without overloads of the name, exclusive or not): the
+    layers are asked from the context outward, each once, none beyond the
+    first exclusive one, and the non-empty answers come back in that order.
+    None when the method is outside the evaluator's fragment."""
+    import itertools
+    from sa import absint
+    ps = m.params()
+    if len(ps) < 2:
+        return None
+    for nonempty in itertools.product((True, False), repeat=3):
+        for excl in itertools.product((False, True), repeat=3):
+            asked = []
+            layers = [absint.Obj('overloads-of-layer-%d' % i, __items__=[
+                absint.Sym('overload-%d' % i)] if nonempty[i] else [])
+                for i in range(3)]
+            for i in range(3):
+                if not nonempty[i]:
+                    layers[i] = []
+
+            def oracle(callee, args, kwargs):
+                if callee.startswith('get_functions#'):
+                    i = int(callee[-1])
+                    asked.append(i)
+                    return ((layers[i], excl[i]),)
+                return None
+            chain = [None, None, None]
+            parent = None
+            for i in (2, 1, 0):
+                chain[i] = absint.Obj(
+                    'layer-%d' % i, parent=parent,
+                    get_functions=absint.Sym('get_functions#%d' % i))
+                parent = chain[i]
+            args = {ps[0]: chain[0], ps[1]: 'name'}
+            it = absint.Interp(repo, mod, oracle)
+            try:
+                out = it.run(m.node, args)
+                if out[0] != 'return':
+                    return None
+                got = [it.force(x) for x in it.iterate(out[1])]
+            except (absint.Unsupported, absint._Raise, RecursionError,
+                    TypeError):
+                return None
+            stop = next((i for i in range(3) if excl[i]), 2)
+            want_asked = list(range(stop + 1))
+            want = [layers[i] for i in want_asked if nonempty[i]]
+            what = 'layers (nearest first) %s' % ', '.join(
+                '%s%s' % ('with overloads' if nonempty[i] else 'empty',
+                          ' exclusive' if excl[i] else '')
+                for i in range(3))
+            if asked != want_asked:
+                return False, 'with %s the layers are asked in the order ' \
+                    '%s, expected %s (outward, each once, none beyond an ' \
+                    'exclusive layer)' % (what, asked, want_asked)
+            if len(got) != len(want) or any(
+                    a is not b for a, b in zip(got, want)):
+                return False, 'with %s the collected layers are %r, ' \
+                    'expected %r' % (what, got, want)
+    return True, ''
+
+
 def _check_walker(repo, rep, mod, m):
+    verdict = _walk_by_evaluation(repo, mod, m)
+    if verdict is not None:
+        rep.ob('R17d', m.key + '/exclusive-stops', verdict[0],
+               'the walk must go from the context outward, ask each layer '
+               'once and stop at an exclusive layer: ' + verdict[1],
+               loc=mod.loc(m.node))
+        rep.ob('R17d', m.key + '/layers-in-walk-order', verdict[0],
+               'non-empty layers must be collected in walk order (nearest '
+               'first): ' + verdict[1], loc=mod.loc(m.node))
+        return
     loops = [n for n in model.walk_shallow(m.node)
              if isinstance(n, ast.While)]
     walker = m
